@@ -50,6 +50,8 @@ def run(chk):
     lines += gen_shapes.make_targeted(chk.seed * 1299709 + 7, 160 if chk.quick else 1500, ["box_q", "box_d"], start=100000, which=["open_box", "open_box", "diff_eq"])
     # dense family for upper_bound_assign_if_exact (and the integer variant): pairs of small shapes with end points on a tiny
     # grid, sharing / adjacent / crossing faces, both argument orders; and swaps / assignments between lazy states
-    lines += gen_shapes.make_targeted(chk.seed * 15485863 + 17, 480 if chk.quick else 6000, kinds, start=200000, which=["ubie", "ubie", "ubie", "swap"])
+    lines += gen_shapes.make_targeted(chk.seed * 15485863 + 17, 480 if chk.quick else 3000, kinds, start=200000, which=["ubie", "ubie", "ubie", "swap"])
+    # BD shapes / octagons: general-form and one-variable transformers with negative denominators and one unbounded variable
+    lines += gen_shapes.make_targeted(chk.seed * 32452843 + 9, 320 if chk.quick else 4000, gen_shapes.MAIN["bds"] + gen_shapes.MAIN["oct"], start=300000, which=["affine_general"])
     out, byid = shapescheck.run_cases(chk, "C03", shapescheck.corpus_cases("C03") + lines, "c03", owner)
     shapescheck.account(chk, out, byid, "C03_* (closure / refine / meet / join / forget never cut a point; definite answers) + verified inclusion test incl_sys")
